@@ -915,7 +915,11 @@ fn check_view(out: &mut Vec<Fail>, bytes: &[u8], schema: &Schema, cols: &[Col], 
                 DataType::Timestamp => getter!(out, i, dt, view.get_timestamp(i), view.get_timestamp_opt(i), *x, |a: &i64, b: &i64| a == b),
                 _ => getter!(out, i, dt, view.get_int8(i), view.get_int8_opt(i), *x, |a: &i64, b: &i64| a == b),
             },
-            V::F32(x) => getter!(out, i, dt, view.get_float4(i), view.get_float4_opt(i), *x, |a: &f32, b: &f32| a.to_bits() == b.to_bits()),
+            V::F32(x) => {
+                // through the OwnedValue glue a FLOAT4 travels as f64 and back: NaN payload/signalling bit is not preserved by the casts
+                let glue = matches!(mode, Mode::Glue);
+                getter!(out, i, dt, view.get_float4(i), view.get_float4_opt(i), *x, |a: &f32, b: &f32| a.to_bits() == b.to_bits() || (glue && a.is_nan() && b.is_nan()))
+            }
             V::F64(x) => getter!(out, i, dt, view.get_float8(i), view.get_float8_opt(i), *x, |a: &f64, b: &f64| f64s(*a, *b)),
             V::TsTz(m, o) => getter!(out, i, dt, view.get_timestamptz(i), view.get_timestamptz_opt(i), (*m, *o), |a: &(i64, i32), b: &(i64, i32)| a == b),
             V::B16(x) => {
